@@ -573,6 +573,10 @@ def gen_viscosity(rng, n, shape, lut):
         q = rng.random()
         if q < 0.2:
             temp = np.full(shape, float(rng.uniform(lo, hi)))
+        elif q < 0.32:
+            # the temperature sensor is read less often than events are recorded: plateaus
+            m = int(rng.integers(2, 9))
+            temp = np.repeat(rng.uniform(lo, hi, m), -(-n // m))[:n].reshape(shape)
         elif q < 0.45:
             temp = np.linspace(lo, hi, n).reshape(shape)
         elif q < 0.8:
@@ -898,6 +902,22 @@ def run_direct(ctx, idx):
     if e0 is None:
         return
     e0 = np.array(e0, copy=True)
+    if idx % 9 == 4 and isinstance(visc_kw["medium"], str) and visc_kw["visc_model"] \
+            and not scalar_call:
+        # the same events as part of a long measurement in one call: more than 10 000 events,
+        # the temperature read less often than events are recorded (plateaus)
+        from vmon.model import c05_lut as M_
+        alias, vm = visc_kw["medium"], visc_kw["visc_model"]
+        lo_, hi_ = T_RANGE[vm if M_.ALIASES[alias] != "water" else "kestin-1978"]
+        N = int(rng.choice([10001, 12000, 24000]))
+        mpl = int(rng.integers(2, 9))
+        tl = np.repeat(rng.uniform(lo_, hi_, mpl), -(-N // mpl))[:N]
+        kwl = dict(base)
+        kwl["deform"] = np.resize(np.asarray(d, dtype=float).reshape(-1), N)
+        kwl[xkey] = np.resize(np.asarray(x, dtype=float).reshape(-1), N)
+        kwl["temperature"] = tl
+        _call(ctx, kwl)
+        ctx.count("long_measurement_calls")
     nontrivial = False
     loose = np.zeros(e0.size, dtype=bool)
     soft = np.ones(e0.size, dtype=bool)
